@@ -19,8 +19,8 @@ def write_if_changed(path, text):
 def main():
     from extractors import ALL
     for fn in ALL:
-        name, text = fn(REPO)
-        write_if_changed(os.path.join(GEN, name), text)
+        for name, text in fn(REPO):
+            write_if_changed(os.path.join(GEN, name), text)
     return 0
 
 
